@@ -203,7 +203,8 @@ class Rewriter:
                 return t
             j = find_close(t, m.end() - 1, mask)
             self.note("R7", t, m.start(), m.group(1))
-            t = t[:m.start()] + keep_lines(t[m.start():j + 1], "rt_unreachable()") + t[j + 1:]
+            stmt = t[j + 1:].lstrip().startswith(";")
+            t = t[:m.start()] + keep_lines(t[m.start():j + 1], "rt_unreachable::<()>()" if stmt else "rt_unreachable()") + t[j + 1:]
 
     # R8 .expect("..") -> .unwrap()
     def r8_expect(self, t):
@@ -970,6 +971,7 @@ def extract_type(sf, item, extra_derives=()):
         inner = text[ob + 1:text.rindex("}")]
         inner2 = re.sub(r"(^|\n)(\s*)(?!pub\b)([a-z_][A-Za-z_0-9]*\s*:)", r"\1\2pub \3", inner)
         text = text[:ob + 1] + inner2 + text[text.rindex("}"):]
+        text = re.sub(r"(^|\n)(\s*)struct\b", r"\1\2pub struct", text, count=1)
         extra_derives = [d for d in extra_derives if d != "pubfields"]
     derives += [d for d in extra_derives if d not in derives]
     if item.kind == "enum" and "PartialEq" in derives and "Structural" not in derives:
